@@ -94,6 +94,44 @@ func init() {
 		return out, nil
 	}
 
+	// dateseq: behaviours of spec/Window.tla - sequences of setter calls and GetStartAndEndDates calls on the option globals
+	// (reset to "not given" in front of every sequence); a model clock tick has no counterpart here (time passes by itself).
+	vHandlers["dateseq"] = func(raw json.RawMessage) (any, error) {
+		var a struct {
+			Seqs [][][]any `json:"seqs"`
+		}
+		if err := json.Unmarshal(raw, &a); err != nil {
+			return nil, err
+		}
+		out := make([][][]int, 0, len(a.Seqs))
+		for _, seq := range a.Seqs {
+			SetAtlasLogStartDate(0)
+			SetAtlasLogEndDate(0)
+			res := [][]int{}
+			for _, st := range seq {
+				op, _ := st[0].(string)
+				arg := 0
+				if len(st) > 1 {
+					if f, ok := st[1].(float64); ok {
+						arg = int(f)
+					}
+				}
+				switch op {
+				case "start":
+					SetAtlasLogStartDate(arg)
+				case "end":
+					SetAtlasLogEndDate(arg)
+				case "call":
+					t0 := int(time.Now().Unix())
+					s, e := GetStartAndEndDates()
+					res = append(res, []int{s, e, t0, int(time.Now().Unix())})
+				}
+			}
+			out = append(out, res)
+		}
+		return out, nil
+	}
+
 	// dates: GetStartAndEndDates after the two setters (called `calls` times, to expose state carried between calls).
 	vHandlers["dates"] = func(raw json.RawMessage) (any, error) {
 		var a struct {
